@@ -295,7 +295,10 @@ impl Xot {
     /// assert!(xot.is_removed(text));
     /// ```
     pub fn is_removed(&self, node: Node) -> bool {
-        self.arena()[node.get()].is_removed()
+        // compare the stamp of the handle with the stamp of the slot: a slot
+        // that has been reused by a newer node must still report the old
+        // handle as removed
+        node.get().is_removed(self.arena())
     }
 
     /// Get parent node.
